@@ -408,6 +408,69 @@ def fam_fp_step(R):
                                            'inputs': {'lo': fpx.fval(m, lo), 'hi': fpx.fval(m, hi)}, 'script': REPLAY_TERM})
 
 
+def fam_wrappers(R):
+    """the five .ilength methods hand their arguments to inv_arclength unchanged"""
+    import svgpathtools.path as P
+    R.stub('inv_arclength -> records its arguments', 'Arc._parameterize no-op')
+    orig_param = P.Arc._parameterize
+
+    def run():
+        P.Arc._parameterize = lambda self: None
+        try:
+            objs = [P.Line(0j, 1 + 1j), P.QuadraticBezier(0j, 1j, 1 + 1j), P.CubicBezier(0j, 1j, 1 + 1j, 2 + 0j),
+                    P.Arc(0j, 2 + 1j, 0, False, True, 1 + 1j), P.Path(P.Line(0j, 1 + 1j))]
+        finally:
+            P.Arc._parameterize = orig_param
+        s, tol, err = symr('s'), symr('s_tol'), symr('error')
+        mi, md = 77, 3
+        out = []
+        for o in objs:
+            rec = {}
+
+            def fake(curve, s_, s_tol=None, maxits=None, error=None, min_depth=None):
+                rec.update(curve=curve, s=s_, s_tol=s_tol, maxits=maxits, error=error, min_depth=min_depth)
+                return 0.5
+            with patched(P, inv_arclength=fake):
+                r = o.ilength(s, s_tol=tol, maxits=mi, error=err, min_depth=md)
+            out.append((type(o).__name__, o, dict(rec), r))
+        return s, tol, err, mi, md, out
+
+    for ctx, (kind, val) in explore(run, maxpaths=50):
+        R.path(ctx, nontrivial=True)
+        if kind != 'ok':
+            R.unexpected(ctx, 'unexpected %s %r' % (kind, val))
+            continue
+        s, tol, err, mi, md, out = val
+        for name, o, rec, r in out:
+            def cex(m, name=name):
+                return {'cls': '%s.ilength does not pass its arguments through' % name, 'inputs': {'s_tol': mval(m, tol), 'error': mval(m, err)},
+                        'script': REPLAY_WRAP % name}
+            ok = rec.get('curve') is o and rec.get('maxits') == mi and rec.get('min_depth') == md and r == 0.5
+            claim = z3.And(z3.BoolVal(bool(ok)), req(rec.get('s', 0), s), req(rec.get('s_tol', 0), tol), req(rec.get('error', 0), err)) if ok else z3.BoolVal(False)
+            R.ob('wrapper.%s' % name, ctx, claim, cex=cex, robust=[tol.e == z3.RealVal('1/1000000000000000'), err.e == z3.RealVal('1/1000000000000')])
+        R.sample({'wrappers': [n for n, _, _, _ in out]})
+
+
+REPLAY_WRAP = '''
+import svgpathtools.path as P
+name = %r
+objs = {'Line': Line(0j, 3+4j), 'QuadraticBezier': QuadraticBezier(0j, 5+5j, 10+0j), 'CubicBezier': CubicBezier(0j, 30+90j, 70-60j, 100+10j),
+        'Arc': Arc(0j, 2+2j, 0, False, True, 2+2j), 'Path': Path(Line(0j, 3+4j))}
+o = objs[name]
+rec = {}
+real = P.inv_arclength
+def spy(curve, s, s_tol=None, maxits=None, error=None, min_depth=None):
+    rec.update(s=s, s_tol=s_tol, maxits=maxits, error=error, min_depth=min_depth); return real(curve, s, s_tol=s_tol, maxits=maxits, error=error, min_depth=min_depth)
+P.inv_arclength = spy
+try:
+    o.ilength(o.length() / 3, s_tol=1e-15, maxits=77, error=1e-12, min_depth=3)
+finally:
+    P.inv_arclength = real
+if rec.get('s_tol') != 1e-15 or rec.get('error') != 1e-12 or rec.get('maxits') != 77 or rec.get('min_depth') != 3:
+    REPRODUCED('%%s.ilength(s, s_tol=1e-15, maxits=77, error=1e-12, min_depth=3) calls inv_arclength with %%r' %% (name, rec))
+'''
+
+
 def families(tier):
     M = 'vf.props.c07'
     fams = [('line', M, 'fam_line', {})]
@@ -416,4 +479,5 @@ def families(tier):
     for n in (1, 2, 3):
         fams.append(('path-n%d' % n, M, 'fam_path', {'n': n}))
     fams.append(('fp-step', M, 'fam_fp_step', {}))
+    fams.append(('wrappers', M, 'fam_wrappers', {}))
     return fams
